@@ -734,7 +734,7 @@ func (x *exec) lookup(s *State, i *ssa.Lookup) Value {
 		h := e.heapGet(s, key+"#val"+l.comp, Array(Int, Array(ks, l.sort)))
 		ts[k] = c.Select(c.Select(h, m), kt)
 	}
-	v := e.mergeVal(has, e.fromLeaves(mt.Elem(), ts), e.zero(mt.Elem()))
+	v := e.mergeVal(has, e.fromLeaves(mt.Elem(), ts, s), e.zero(mt.Elem()))
 	if i.CommaOk {
 		return TupleV{v, has}
 	}
@@ -818,5 +818,5 @@ func (x *exec) next(s *State, i *ssa.Next) Value {
 		h := e.heapGet(s, key+"#val"+l.comp, Array(Int, Array(ks, l.sort)))
 		ts[k] = c.Select(c.Select(h, m), kt)
 	}
-	return TupleV{ok, kv, e.fromLeaves(mt.Elem(), ts)}
+	return TupleV{ok, kv, e.fromLeaves(mt.Elem(), ts, s)}
 }
